@@ -15,7 +15,7 @@ import os, sys, importlib
 import vcommon
 
 PROPS = ["Bee2V/C16/Props.lean", "Bee2V/C16/PropsB96.lean", "Bee2V/C16/PropsG12.lean", "Bee2V/C16/PropsDstuSig.lean",
-         "Bee2V/C16/PropsDstuPoint.lean", "Bee2V/C16/PropsPfok.lean"]
+         "Bee2V/C16/PropsDstuPoint.lean", "Bee2V/C16/PropsPfok.lean", "Bee2V/C16/PropsDstuSub.lean", "Bee2V/C16/PropsC06.lean"]
 PROPS = [p for p in PROPS if os.path.exists(os.path.join(vcommon.LEAN, p))]
 TARGETS = [p[:-5].replace("/", ".") for p in PROPS]
 CORPUS = os.path.join(vcommon.VERIF, "gen", "c16_corpus.txt")
@@ -506,6 +506,9 @@ class Gen:
                 add("dstu.pval %d %s" % (i, hx(cv.pt((1, yy)))), kind="expect", expect=OK, what="PointVal((1, y))")
                 add("dstu.comp %d %s" % (i, hx(cv.pt((1, yy)))), kind="dstu.comp", cv=cv, P=(1, yy))
                 self.count("dstu.comp:x=1")
+        if cv.A == 0:
+            # 01 00..00: the x-coordinate becomes 0 after the trace rule; not the code of a point (docs/C16.fix-8.diff)
+            add("dstu.rec %d %s" % (i, hx(b"\x01" + bytes(cv.no - 1))), kind="expect", expect=BAD_POINT, what="Recover(01 00..00)")
         add("dstu.pval %d %s" % (i, hx(cv.pt((0, y0)))), kind="expect", expect=BAD_POINT)
         add("dstu.pval %d %s" % (i, hx(bytes(2 * cv.no))), kind="expect", expect=BAD_POINT)
         add("dstu.comp %d %s" % (i, hx(b"\xff" * (2 * cv.no))), kind="expect", expect=BAD_POINT)
@@ -722,6 +725,10 @@ class Gen:
         add("dstu.sign %d %s %d %s %s %s" % (i, hx(P), 16 * oo - 16, hx(H), hx(tb(1)), hx(good())), kind="expect", expect=BAD_INPUT)
         add("dstu.sign %d %s %d %s %s %s" % (i, hx(P), 16 * oo + 8, hx(H), hx(tb(1)), hx(good())), kind="expect", expect=BAD_INPUT)
         add("dstu.sign %d %s %d %s %s -" % (i, hx(P), 16 * oo, hx(H), hx(tb(1))), kind="raw", expect_raw="exhausted")
+        # private keys outside {1..n-1} (docs/C16.fix-7.diff); ld is checked first
+        for dd in (0, n, (1 << (8 * oo)) - 1):
+            add("dstu.sign %d %s %d %s %s %s" % (i, hx(P), 16 * oo, hx(H), hx(tb(dd)), hx(good())), kind="expect", expect=BAD_PRIVKEY)
+        add("dstu.sign %d %s %d %s %s %s" % (i, hx(P), 16 * oo + 8, hx(H), hx(tb(0)), hx(good())), kind="expect", expect=BAD_INPUT)
         # constructed retry: s = e + d r = 0 for the first draw e (r learned from the implementation with d = 1)
         if full:
             e1, e2 = rng.randrange(1, trim + 1), rng.randrange(1, trim + 1)
